@@ -288,6 +288,23 @@ def run(prog, rep):
                     ok = ok and canon(strip(tr.operand(t["args"][1]))) == "arg:ctx"
         rep.check(ok, "C06.B", "%s :: per-arm scope" % f.id, f.loc(), "a fresh nested scope per arm; conditions in the enclosing scope",
                   "the arms of %s do not each get their own nested scope (or conditions are checked inside an arm's scope)" % ty.rsplit("::", 1)[-1])
+    # the context handed from stanza to stanza is read-only: no memo/cache can carry facts of one stanza into the check of another
+    from ..lib import typewalk
+    rep.rule("C06.C", "tsg::checker::CheckContext holds no interior mutability (every stanza is checked against the file, never against what earlier stanzas left behind)")
+    im = typewalk.interior_mutability(prog.lib, prog, "tsg::checker::CheckContext")
+    if im is None:
+        rep.violation("C06.C", "anchor-lost:CheckContext", "", "type not found")
+    else:
+        rep.check(not im, "C06.C", "CheckContext :: no interior mutability", "", "no Cell/RefCell/Mutex/Atomic reachable through its fields",
+                  "the checker's context carries mutable shared state (%s): what one stanza resolves can change how a later stanza is checked" % (im[:2],))
+    # ---- V: the checker's scopes are VariableMaps: redefinition / assignment errors originate there and must reach the caller
+    from ..engines import e5_writers as e5
+    from ..engines import e2_errflow as e2
+    rep.rule("E5.var", "VariableMap::add refuses every second definition; VariableMap::set writes mutable bindings only")
+    e5.variable_map_shape(prog, rep, "E5.var")
+    rep.rule("E2.d", "no VariableError of the scope maps is dropped or replaced on the way to the checker")
+    nv, _k = e2.run_e2d(prog, rep, [f for f in prog.fns.values() if f.file == "src/variables.rs"], e2.ABSORB)
+    rep.floor("E2.d", nv, 1, "fallible calls in variables.rs")
     # ---- X: index spaces (the unused-capture computation compares capture indices)
     from . import C03
     C03.index_space(prog, rep)
